@@ -2,3 +2,7 @@ claim("C01",
       "property-based differential test vs extended-precision defining sum; round-trip and Parseval laws; call-history programs",
       "Generated-input search: every generated (shape, alpha, shift, offset, flag, out=) configuration is compared element-wise with an independent longdouble evaluation of the defining double sum under a derived rounding bound; inverse round trip and energy conservation on the full-period domain; sequences of calls reusing shapes. Bounded sizes, sampled real parameters: exploration, not proof.",
       "Trusts numpy longdouble arithmetic for the reference; bounds: axis length <= 12 (quick) / 40 (thorough), |alpha| in [1e-4,1], |offset| <= 50, shifts within 2x output size.")
+claim("C06",
+      "property-based model comparison (embedding on an infinite zero plane) plus exhaustive small-scope enumeration",
+      "Every generated field pair / collection / (field, target) is compared with a coordinate-set and canvas model of the infinite zero-padded plane: products, merges, reduce (total and pairwise disjointness), insert with four-sided clipping and weights, and all extent queries. The thorough tier enumerates complete small scopes (insert: shapes 1..4 x offsets -7..7 x targets 1..5; products and extent queries: shapes up to 3-4, offsets -4..4).",
+      "Embedding rule taken from the property (origin sample at floor(n/2)); one-element fields only in products; bounded shapes/offsets; values at 1e-13 relative.")
